@@ -92,7 +92,7 @@ fn dec<T: Packet + std::fmt::Debug>(op: &str, b: &[u8]) -> String {
                     let suffix = s.len() <= b.len() && s.as_ptr() == b[b.len() - s.len()..].as_ptr();
                     format!("OK used={} suffix={} reenc={} dbg={:?}", b.len() - s.len(), suffix, reenc(&v), v)
                 }
-                Err(e) => format!("ERR {} untouched={}", dvariant(&e), s.len() == b.len() && s.as_ptr() == b.as_ptr()),
+                Err(e) => format!("ERR {} untouched={}", dvariant(&e), s.len() == b.len() && (b.is_empty() || s.as_ptr() == b.as_ptr())),
             }
         }
         _ => "BADOP".to_string(),
